@@ -1,7 +1,7 @@
 """C02 - a saved session restores to an observationally equivalent session."""
 PROPERTY = 'C02'
 LEVEL = 'exploration'
-DEDUCTIVE = ['contracts.c02_serializer', 'contracts.c12_state']
+DEDUCTIVE = ['contracts.c02_serializer', 'contracts.c12_state', 'contracts.c02_pairs']
 BUDGET_S = {'quick': 200.0, 'thorough': 600.0}
 MIN_OBLIGATIONS = {'quick': 30, 'thorough': 30}
 BOUNDED_FLOOR = {'quick': 250, 'thorough': 500}
@@ -36,3 +36,8 @@ MANIFEST_ENTRY = {
             "coordinates, component/label/style/metadata variants through GlueSerializer and Application.save_session, include_data on and off, each saved twice.",
     "note": "Level is exploration: the statement quantifies over per-class savers that are numpy/astropy code. Known findings are listed in known_findings.json.",
 }
+MANIFEST_ENTRY['text'] += (" Eight saver / loader pairs of glue/core/state.py (range, region, n-d region, inequality and composite selections, slices, lists, styles) are proved to be inverse of one another: "
+                           "the real saver is run on an object with opaque field values and the real loader on the record it returned, with the serialization context abstracted to id / object as "
+                           "inverse functions; the loader must hand the constructor exactly the saved values (by identity, so falsy values are not swapped for defaults) in the right positions.")
+TRUSTED_BASE.append("saver/loader pair contracts: context.id / context.object are inverse functions, context.do an inline record; class constructors are stubs recording their arguments; "
+                    "pairs that go through numpy, astropy or matplotlib (arrays, components, units, coordinates, Data itself) are decided by the bounded round trips only")
